@@ -27,6 +27,8 @@ UNDECODABLE = b"x = '\xff\xfe %s'\n"
 def content_for(cls, ident):
     if cls in ('shrinks', 'readonly', 'unreadable'):
         return (SHRINK % (ident, ident)).encode()
+    if cls == 'legacy':
+        return b'# -*- coding: latin-1 -*-\n' + (SHRINK % (ident, ident)).replace("'''docstring'''", "'''caf\xe9 cr\xe8me'''").replace('print(', "print('\xe9t\xe9', ").encode('latin-1')
     if cls == 'grows':
         return (GROW % ident).encode()
     if cls == 'equal':
